@@ -548,6 +548,12 @@ class Executor:
             # in-place update of a whole allocated array
             self.store_array(cur.arr, None, v, st, frame, aug=True)
             return
+        if isinstance(cur, Num) and cur.shape != () and cur.pytype in ("ndarray", "frame", "series") and isinstance(st.target, ast.Name):
+            # numpy/pandas augmented assignment mutates the object in place: every alias
+            # (a view of an argument or of a fitted field) sees the change
+            if self.is_foreign(cur):
+                self.emit("store_foreign", st, target=cur, root=cur, index=None, value=v, aug=True)
+            self.emit("inplace_aug", st, target=cur, value=v)
         self.emit("augassign", st, target=ast.unparse(st.target), cur=cur, value=v)
         self.assign(st.target, v, frame, st, aug=True)
 
@@ -640,6 +646,8 @@ class Executor:
 
         if v.meta.get("foreign"):
             return True
+        if v.meta.get("fresh"):
+            return False  # result of an arithmetic operation: a new array
         if v.nf is None:
             return False
         a = None
@@ -650,8 +658,13 @@ class Executor:
             return False
         if a.kind == "sym":
             return True
-        if a.kind == "app" and a.args[0] in ("idx", "col", "colslice", "T"):
+        if a.kind == "app" and a.args[0] in ("idx", "col", "colslice", "T", "rowslice"):
             inner = a.args[1]
+            if a.args[0] == "idx":
+                # basic indexing (slices / scalars) gives a view, fancy indexing a copy
+                parts = a.args[2]
+                if any(isinstance(p, tuple) and p[0] in ("gather", "mask", "gatherlist", "gatherlist?") for p in parts):
+                    return False
             if isinstance(inner, NF):
                 return self.is_foreign(Num(inner, None))
         return False
@@ -1337,7 +1350,7 @@ class Executor:
             return Num(r, shape, "float", "ndarray")
         else:
             raise Undecided(f"operator {type(op).__name__}", node)
-        return Num(r, shape, dt, pytype)
+        return Num(r, shape, dt, pytype, meta={"fresh": True})
 
     def cur_nf(self, v: Num) -> NF:
         """Normal form of the *current* contents of a (possibly mutated) array value."""
